@@ -15,6 +15,7 @@ def run(ctx):
     res.extra["kick_topic_invite_commands"] = n
     res.floor("kick_topic_invite_commands", n, 1200)
     res.floor("distinct_rank_cases", len(res.distinct), 60)
+    common.run_big(ctx, res, ("C09",))
     for r in results[:3]:
         if r.get("tail"):
             res.add_sample({"episode_seed": r["seed"], "last_commands": r["tail"]})
